@@ -68,6 +68,7 @@ def build(inst):
     mag = float(inst.get("mag", 1.0))
     c = rng.normal(size=n) * mag
     kind = inst.get("prob", "nl")
+    tgt = float(inst.get("tdist", 5.0)) * np.where(_rng(inst, 13).random(n) < 0.5, -1.0, 1.0)
 
     def resid(x):
         z = x - c
@@ -81,6 +82,10 @@ def build(inst):
             return np.array([10.0 * (z[1] - z[0] ** 2), 1.0 - z[0]]) + 1e-3
         if kind == "zero":
             return 0.0 * (A @ z)
+        if kind == "target":   # r(x) = x - t : the minimiser is the point t = c + 5*sign pattern (pushes the solution into corners of the feasible set)
+            return z - tgt
+        if kind == "target1":  # same with a constant extra residual: non-zero optimal value, minimiser t
+            return np.concatenate([z - tgt, [1.0]])
         if kind == "zres":  # zero-residual problem: triggers the 'objective is sufficiently small' exit
             return A @ z + 0.1 * (z ** 2).sum() * np.ones(m)
         raise ValueError(kind)
@@ -93,6 +98,16 @@ def build(inst):
         lo = c - wl
     if btype in ("both", "upper"):
         hi = c + wu
+    if inst.get("corner") and lo is not None and hi is not None:
+        # a box one of whose corners lies inside the convex sets (all of which contain a ball of radius >= 0.3 around c): faces AND set boundaries active
+        sg = np.where(tgt < 0, -1.0, 1.0)
+        for j in range(n):
+            if sg[j] < 0:
+                lo[j], hi[j] = c[j] - 0.25, c[j] + wu[j] + 1.0       # pushed towards the lower face, which is close
+            else:
+                lo[j], hi[j] = c[j] - wl[j] - 1.0, c[j] + 0.25 + 3.0  # pushed towards the set boundary before the far upper face
+    if inst.get("x0atmin"):
+        pass
     if inst.get("boxaway") and lo is not None and hi is not None:
         # move the box away from the unconstrained minimiser in some coordinates
         sh = (rng.random(n) < 0.6) * rng.choice([-1.0, 1.0], size=n) * (wl + wu)
@@ -136,6 +151,8 @@ def build(inst):
             x0[j] = L - 1e-7
         elif p == "slightU" and U is not None:
             x0[j] = U + 1e-7
+    if inst.get("x0atmin"):
+        x0 = c + tgt          # start exactly at the minimiser of the 'target' problems: the first run cannot improve on f(x0)
     if inst.get("x0far"):
         # minimiser very far from the start (badly scaled problem): the trust-region radius grows to its cap
         d = rng.normal(size=n)
